@@ -767,6 +767,28 @@ pub fn lattice(seed: u64, both_orders: bool) -> Vec<Placement> {
                 }
             }
         }
+        // the kinds that change how the feature lists combine (`--features ''`, DELTA_FEATURES='+',
+        // a '+' list), two at a time, against every other kind
+        for (m1, m2) in [("empty-cli-features", "plus-only-env-features"), ("empty-cli-features", "custom-plusenv-features"), ("plus-only-env-features", "custom-cli-features")] {
+            for a in SOURCE_KINDS {
+                if *a == m1 || *a == m2 {
+                    continue;
+                }
+                n += 1;
+                let mut rng = Rng::new(mix(seed, &[tag("C13"), tag("modifiers"), n]));
+                let mut b = Builder::new(probe);
+                let order: [&str; 3] = if n % 2 == 0 { [a, m1, m2] } else { [m1, a, m2] };
+                let mut ok = 0;
+                for k in order {
+                    if b.add(&mut rng, k) {
+                        ok += 1;
+                    }
+                }
+                if ok >= 2 && sane(&b.p) {
+                    out.push(b.p);
+                }
+            }
+        }
         // --no-gitconfig against every single gitconfig source kind
         for a in SOURCE_KINDS {
             n += 1;
